@@ -654,6 +654,10 @@ class SimPopen:
         self.sentinel = self.pid
         self.proc_id = kernel.new_proc_id()
         self.traceback = None
+        parent_obj = getattr(kernel.current, "proc_obj", None)
+        if parent_obj is not None and parent_obj._config.get("daemon"):
+            # what multiprocessing.Process.start() asserts inside a real daemonic process
+            raise AssertionError("daemonic processes are not allowed to have children")
         child = fork_copy(process_obj)
         self.child = child
         role = getattr(process_obj, "sim_role", None) or "worker"
@@ -678,6 +682,7 @@ class SimPopen:
             self.returncode = code
 
         self.task = kernel.spawn(body, role, proc=self.proc_id, kind="process")
+        self.task.proc_obj = child
         self.task_name = self.task.name
 
     def _pipe_queues(self):
